@@ -16,6 +16,8 @@ package main
 //   abrupt-close    connected through a TCP forwarder that resets every connection mid-workload
 //   tcp-stall       forwarder stops moving bytes (connection stays open)
 //   writer-vs-poll  no misbehaving peer at all: healthy replicas only, continuous writer
+//   session-churn   (c15churn.go) dozens of raw replicas whose streams all end at the same moment, round
+//                   after round, under continuous writers and topology readers; run in a child process
 //   ack-retention   the primary's log was rotated (a flush); replica S acknowledged sequence 1 once and
 //                   lags; two raw replicas read their streams and acknowledge continuously (every
 //                   Acknowledge runs the WAL retention); continuous writer
@@ -50,7 +52,7 @@ import (
 	"google.golang.org/grpc/metadata"
 )
 
-func init() { register("C15", &Prop{Gen: genC15, Run: runC15}) }
+func init() { register("C15", &Prop{Gen: genC15, Run: runC15, Child: childC15}) }
 
 func removeAll(p string) {
 	if p != "" {
@@ -309,6 +311,10 @@ func topologyHas(pm *replication.Manager, addr string) (bool, bool) {
 
 func runC15(cs *Case, out func(string)) {
 	probe := hdrVal(cs.Hdr, "probe", "stall-reader")
+	if probe == "session-churn" {
+		runC15Churn(cs, out) // in a child process: the failure looked for kills the process
+		return
+	}
 	nHealthy, _ := strconv.Atoi(hdrVal(cs.Hdr, "healthy", "1"))
 	puts, _ := strconv.Atoi(hdrVal(cs.Hdr, "puts", "400"))
 	vsize, _ := strconv.Atoi(hdrVal(cs.Hdr, "vsize", "16384"))
@@ -709,9 +715,13 @@ func runC15(cs *Case, out func(string)) {
 
 func genC15(w *bufio.Writer, seed int64, n int, tier string) {
 	r := rand.New(rand.NewSource(seed*104729 + 15))
-	kinds := []string{"ack-retention", "stall-idle", "abrupt-close", "tcp-stall", "no-ack", "slow-apply", "stall-reader", "writer-vs-poll"}
+	kinds := []string{"ack-retention", "stall-idle", "abrupt-close", "tcp-stall", "no-ack", "slow-apply", "stall-reader", "writer-vs-poll", "session-churn"}
 	for i := 0; i < n; i++ {
 		k := kinds[i%len(kinds)]
+		if k == "session-churn" {
+			fmt.Fprintf(w, "case g%d-%d probe=session-churn peers=%d rounds=%d roundms=%d hbint=300 hbto=1200\nend\n", seed, i, 32+16*r.Intn(4), 4+r.Intn(8), 100+50*r.Intn(5))
+			continue
+		}
 		healthy := 1
 		puts := 320
 		vsize := 16384
